@@ -231,14 +231,29 @@ pub fn inputs(tier: &str, seed: u64, mut f: impl FnMut(&[u8], &str)) {
                 }
                 2 if r.chance(1, 2) => format!("P|100000:100000|100000:0"),
                 2 => {
-                    // three nearby points far from the slider head, as a LATER segment: the
-                    // circumcircle determinant is computed from absolute coordinates (~1e10 with
-                    // ulp ~1e3) and cancels catastrophically while the collinearity test, computed
-                    // from differences, is still clearly non-zero
+                    // lattice-thin triangle far from the slider head, as a LATER segment: a,
+                    // a + (p,q), a + k(p,q) + (ex,ey) with p*ey - q*ex = 1, so twice the signed area is
+                    // exactly +-1 -- never "collinear" for the decoder -- while the circumcircle
+                    // determinant is summed from products of magnitude |a|*|p| >> 2^24 and cancels to
+                    // 0, +-32, ... in f32: centre and radius become inf / NaN
+                    fn egcd(a: i64, b: i64) -> (i64, i64, i64) {
+                        if b == 0 {
+                            (a, 1, 0)
+                        } else {
+                            let (g, x, y) = egcd(b, a % b);
+                            (g, y, x - (a / b) * y)
+                        }
+                    }
                     let sgn = |r: &mut Rng| if r.chance(1, 2) { 1 } else { -1 };
-                    let (ax, ay) = (sgn(&mut r) * r.range(50_000, 125_000), sgn(&mut r) * r.range(50_000, 125_000));
-                    let (u1, v1, u2, v2) = (r.range(-60, 60), r.range(-60, 60), r.range(-60, 60), r.range(-60, 60));
-                    format!("L|10:10|P|{}:{}|{}:{}|{}:{}", ax, ay, ax + u1, ay + v1, ax + u2, ay + v2)
+                    let (ax, ay) = (sgn(&mut r) * r.range(40_000, 100_000), sgn(&mut r) * r.range(40_000, 100_000));
+                    let (mut p, q) = (r.range(200, 3000), r.range(200, 3000));
+                    while egcd(p, q).0 != 1 {
+                        p += 1;
+                    }
+                    let (_, x, y) = egcd(p, q);
+                    let k = r.range(2, 8);
+                    let lead = if r.chance(3, 4) { "L|10:10|" } else { "" };
+                    format!("{}P|{}:{}|{}:{}|{}:{}", lead, ax, ay, ax + p, ay + q, ax + k * p - y, ay + k * q + x)
                 }
                 3 => format!("B|{}:{}|{}:{}|{}:{}|{}:{}", big(&mut r), big(&mut r), big(&mut r), big(&mut r), big(&mut r), big(&mut r), big(&mut r), big(&mut r)),
                 4 => format!("B|100:100|200:0|P|{}:{}|{}:{}", big(&mut r), big(&mut r), big(&mut r), big(&mut r)),
